@@ -92,11 +92,14 @@ def configs(tier):
     # (vector samples with scalar targets raise inside fit: known finding of C19, not a configuration here)
     for xs, ys, R in [((2, 2), (), 1), ((2,), (2,), 1), ((2,), (2,), 2), ((2, 2), (2,), 1)] + ([] if q else [((2, 2), (), 2), ((2, 2), (2,), 2)]):
         add("cp_regressor", xs=xs, ys=ys, R=R, ns=3)
+    add("cp_regressor", xs=(2, 2), ys=(), R=1, ns=3, K=2)  # two sweeps
     for shp, rank in [((2, 2, 2), [1, 2, 1, 1]), ((2, 2, 2), [2, 1, 1, 2])] + ([] if q else [((2, 3, 2), [1, 1, 2, 1]), ((2, 2, 2), [2, 1, 2, 2])]):
         for ls in ("normal_eq", "lstsq"):
             add("tr_als", shape=shp, rank=rank, ls=ls)
+    add("tr_als", shape=(2, 2, 2), rank=[2, 2, 1, 2], ls="lstsq", K=2)  # two sweeps: an update rule that depends on the sweep index
     for xs, ranks in [((2, 2), (1, 1)), ((2, 2), (2, 1))] + ([] if q else [((2, 2), (2, 2)), ((2, 3), (1, 2))]):
         add("tucker_regressor", xs=xs, ranks=ranks, ns=3)
+    add("tucker_regressor", xs=(2, 2), ranks=(2, 1), ns=3, K=2)  # two sweeps
     for shp, cols, R in [((2, 2, 2), 2, 1), ((2, 2, 2), 2, 2)] + ([] if q else [((2, 3, 2), 3, 2), ((3, 2, 2), 1, 2)]):
         add("cmtf", shape=shp, cols=cols, R=R)
     add("lemma_1d")
@@ -527,18 +530,20 @@ def h_cp_regressor(E, cfg):
     X = E.real("X", (ns,) + xs)
     y = E.real("y", (ns,) + ys)
     lam = E.real("lam", pos=True)
-    reg = CPRegressor(weight_rank=R, n_iter_max=1, tol=0, reg_W=lam, random_state=7, verbose=0)
+    K_ = cfg.get("K", 1)
+    reg = CPRegressor(weight_rank=R, n_iter_max=K_, tol=0, reg_W=lam, random_state=7, verbose=0)
     reg.fit(np.array(X), np.array(y))
     calls = [c for c in sym.CTX.stub_calls if c[0] == "solve"]
     nb = n_in + len(ys)
-    E.prove("one_solve_per_block", len(calls) == nb)
+    E.prove("one_solve_per_block", len(calls) == nb * K_)
     # the same seeded stream gives the same initial weights (uninterpreted draws are functional in (seed, draw index, position))
     rs = backend.s_check_random_state(7)
     W = [np.asarray(rs.randn(n, R), dtype=object) for n in xs] + [np.asarray(rs.randn(n, R), dtype=object) for n in ys]
     yo = np.asarray(y, dtype=object)
-    for i in range(nb):
-        A_code, B_code = calls[i][1]
-        out = np.asarray(calls[i][2], dtype=object)
+    for i_all in range(nb * K_):
+        i = i_all % nb
+        A_code, B_code = calls[i_all][1]
+        out = np.asarray(calls[i_all][2], dtype=object)
         if i < n_in:
             n_i = xs[i]
             cols = []
@@ -607,15 +612,17 @@ def h_tr_als(E, cfg):
         return
     backend.configure(solve="contract", lstsq="contract")
     X = E.real("X", shp)
-    res = tensor_ring_als(np.array(X), list(rank), ls_solve=ls, n_iter_max=1, tol=0, random_state=9)
+    K_ = cfg.get("K", 1)
+    res = tensor_ring_als(np.array(X), list(rank), ls_solve=ls, n_iter_max=K_, tol=0, random_state=9)
     kind = "solve" if ls == "normal_eq" else "lstsq"
     calls = [c for c in sym.CTX.stub_calls if c[0] == kind]
-    E.prove("one_kernel_call_per_block", len(calls) == n)
+    E.prove("one_kernel_call_per_block", len(calls) == n * K_)
     rs = backend.s_check_random_state(9)
     cores = [np.asarray(rs.random_sample((rank[i], m, rank[i + 1])), dtype=object) for i, m in enumerate(shp)]
     Xo = np.asarray(X, dtype=object)
-    for d in range(n):
-        sol = np.asarray(calls[d][2], dtype=object)
+    for d_all in range(n * K_):
+        d = d_all % n
+        sol = np.asarray(calls[d_all][2], dtype=object)
         cores[d] = np.transpose(sol.reshape(rank[d], rank[d + 1], shp[d]), (0, 2, 1))
         dense = d_tr(cores)
         resid = Xo - dense
@@ -774,17 +781,19 @@ def h_tucker_regressor(E, cfg):
     X = E.real("X", (ns,) + xs)
     y = E.real("y", (ns,))
     lam = E.real("lam", pos=True)
-    reg = TuckerRegressor(weight_ranks=list(ranks), n_iter_max=1, tol=0, reg_W=lam, random_state=7, verbose=0)
+    K_ = cfg.get("K", 1)
+    reg = TuckerRegressor(weight_ranks=list(ranks), n_iter_max=K_, tol=0, reg_W=lam, random_state=7, verbose=0)
     reg.fit(np.array(X), np.array(y))
     calls = [c for c in sym.CTX.stub_calls if c[0] == "solve"]
-    E.prove("one_solve_per_block", len(calls) == nb)
+    E.prove("one_solve_per_block", len(calls) == nb * K_)
     rs = backend.s_check_random_state(7)
     G = np.asarray(rs.randn(*ranks), dtype=object)
     W = [np.asarray(rs.randn(n, ranks[k]), dtype=object) for k, n in enumerate(xs)]
     yo = np.asarray(y, dtype=object)
-    for i in range(nb):
-        A_code, B_code = calls[i][1]
-        out = np.asarray(calls[i][2], dtype=object)
+    for i_all in range(nb * K_):
+        i = i_all % nb
+        A_code, B_code = calls[i_all][1]
+        out = np.asarray(calls[i_all][2], dtype=object)
         cols = []
         if i < len(xs):
             shape_i = (xs[i], ranks[i])
